@@ -102,7 +102,7 @@ def observe(fn, inp, mod, cells, limit=10.0, gnames=('G0', 'G1')):
     cv = cells()
   except NAMEERR:
     cv = ('unbound-cell',)
-  post = {'o': sorted((k, repr(v)) for k, v in args[2].__dict__.items()), 'd': repr(sorted(args[3].items())),
+  post = {'o': sorted((k, repr(v)) for k, v in args[2].__dict__.items()), 'd': repr(sorted(args[3].items(), key=repr)),
           'l': repr(args[4]), 'G0': repr(getattr(mod, gnames[0], '<deleted>')), 'G1': repr(getattr(mod, gnames[1], '<deleted>')),
           'cells': repr(cv)}
   prop = log.index(rt.PROP) if rt.PROP in log else None
